@@ -388,6 +388,31 @@ class SymBool:
     def __hash__(self):
         return id(self)
 
+    # ordering of booleans (False < True): numpy.argmax / sort on object arrays of comparisons
+    def __gt__(self, o):
+        try:
+            return SymBool(z3.And(self.c, z3.Not(SymBool._c(o))))
+        except TypeError:
+            return NotImplemented
+
+    def __lt__(self, o):
+        try:
+            return SymBool(z3.And(z3.Not(self.c), SymBool._c(o)))
+        except TypeError:
+            return NotImplemented
+
+    def __ge__(self, o):
+        try:
+            return SymBool(z3.Or(self.c, z3.Not(SymBool._c(o))))
+        except TypeError:
+            return NotImplemented
+
+    def __le__(self, o):
+        try:
+            return SymBool(z3.Or(z3.Not(self.c), SymBool._c(o)))
+        except TypeError:
+            return NotImplemented
+
     def __int__(self):
         return int(bool(self))
 
@@ -1264,4 +1289,26 @@ def float_coercion_patches():
             wrapper.__wrapped__ = orig
             return wrapper
         out.append((numpy, name, make(orig)))
+    orig_isclose, orig_allclose = numpy.isclose, numpy.allclose
+
+    def isclose(a, b, rtol=1e-05, atol=1e-08, equal_nan=False):
+        # numpy's definition |a - b| <= atol + rtol |b| on symbolic contents (finite values)
+        if _has_sym(a) or _has_sym(b):
+            A = a if isinstance(a, (SymReal, SymInt)) else numpy.asarray(a, dtype=object)
+            B = b if isinstance(b, (SymReal, SymInt)) else numpy.asarray(b, dtype=object)
+            if isinstance(A, numpy.ndarray) and A.ndim > 0:
+                A = A.view(SymArray)
+            if isinstance(B, numpy.ndarray) and B.ndim > 0:
+                B = B.view(SymArray)
+            return abs(A - B) <= atol + rtol * abs(B)
+        return orig_isclose(a, b, rtol=rtol, atol=atol, equal_nan=equal_nan)
+
+    def allclose(a, b, rtol=1e-05, atol=1e-08, equal_nan=False):
+        if _has_sym(a) or _has_sym(b):
+            r = isclose(a, b, rtol=rtol, atol=atol, equal_nan=equal_nan)
+            return bool(numpy.all(r)) if isinstance(r, numpy.ndarray) else bool(r)
+        return orig_allclose(a, b, rtol=rtol, atol=atol, equal_nan=equal_nan)
+    isclose.__wrapped__, allclose.__wrapped__ = orig_isclose, orig_allclose
+    out.append((numpy, 'isclose', isclose))
+    out.append((numpy, 'allclose', allclose))
     return out
